@@ -6,11 +6,20 @@ CLAIMS = {
         "exactly-once FIFO hand-back with byte-identical requests (C13_exactly_once_fifo), release only when terminal and eagerly "
         "(C13_released_terminal, C13_release_eager), unknown acks are no-ops; the regenerated switch tables equal the protocol's "
         "(C13_tables_are_protocol); model tied to sessions/ackqueue.go by differential runs (real code vs model vs specification)"),
- 'C06': dict(category='exploration', ref='5 Core B, 8 C06',
-   text="Code-shaped Lean model of the tries and nextTopicLevel, tied to topics/memtopics.go by differential runs, and compared with a "
-        "section-4.7 specification written from the standard: exhaustive over all filter x name pairs of up to 3 (quick) / 4 (thorough) "
-        "levels over {a,b,'',+,#} plus random histories. Theorems so far cover only the leaf update (C06_resubscribe_replaces); the "
-        "trie characterisation theorems (smatch_char, store_refines) are under construction, hence the level is not yet 'proof'. "
-        "Known findings B3 (empty levels, pinned by tests) and B4 ('$' below the first level) are replayed on every run",
-   technique="Lean 4 executable model + specification, differential correspondence and exhaustive small-scope sweep; proofs in progress"),
+ 'C06': dict(category='proof', ref='5 Core B, 8 C06',
+   text="Lean 4 theorems over ALL tries, histories and names (no bounds), about the code-shaped model of topics/memtopics.go that the "
+        "differential runs tie to the Go code: C06_smatch_char (smatch returns, up to map order, exactly the trie entries whose path "
+        "the name walk selects, each with min(publish QoS, subscription QoS)); C06_walk_eq_spec (that walk IS section-4.7 matching on "
+        "level lists); C06_sinsert_refines / C06_sremove_refines / C06_pruned_preserved (insert replaces-or-adds one entry, remove "
+        "deletes exactly one, failed walks change no entry, unique-key and pruning invariants kept); C06_levels_spec (the byte state "
+        "machine nextTopicLevel computes the specification's split and accepts exactly the valid filters); C06_store_refines and "
+        "C06_subscribers_partial (after any history the trie holds exactly the abstract store's subscriptions and Subscribers answers as "
+        "the specification does); C06_invalid_filter_rejected; for retained messages C06_rmatch_char, C06_rwalk_eq_spec, "
+        "C06_retained_trie_refines, C06_retained_pruned_preserved, C06_retained_store_refines, C06_retained_partial. PARTIAL: the "
+        "history/levels theorems carry the decidable hypothesis 'no empty level and no $-led level in any topic argument' (and retained "
+        "topics are valid names) - exactly the open findings B3 (empty levels, pinned by the suite) and B4 ('$' below the first level); "
+        "the unrestricted statements are kept next to proved counterexamples (C06_subscribers_full_counterexample, "
+        "C06_retained_full_counterexample, C06_levels_counterexample_empty_level, C06_levels_counterexample_dollar_level) and the "
+        "deviant inputs are replayed on the real code on every run. Exhaustive sweep of all filter x name pairs up to 3/4 levels over "
+        "{a,b,'',+,#} and random histories tie model, code and specification"),
 }
